@@ -580,6 +580,10 @@ func vBreakLineOrphansWidows() (int, []string) {
 //@   modifies anything
 //@   assert after nextPage#1: nextPage.Break == pageBreak && nextPage.Page == first(callresult(PageValues, 1))
 //@   unclaimed call-*-pre* "box accessors on laid-out boxes"
+// a block-level replaced / flex / grid child is laid out at the position that already includes its own top margin: it is
+// moved by (collapsed adjoining margins - its top margin), NEGATIVE when a negative margin is adjoining (CSS 2.1 §8.3.1)
+//@   assert after offsetY#1: offsetY == callresult(collapseMargin, 5) - pr.VV(newChild.MarginTop)
+//@   call Translate#3 assert[moved-by-the-collapsed-margin] arg0 == newChild_ && arg2 == 0 && arg3 == offsetY
 //@   assert after skipStack#1: newChild_ != nil ==> len(*adjoiningMargins) >= 1 && (*adjoiningMargins)[len(*adjoiningMargins)-1] == pr.VV(newChild_.Box().MarginBottom)
 
 // css-page-3 §5.2 page progression / css-break-3: the first page is a right page in a left-to-right document
